@@ -1047,6 +1047,30 @@ func genC10(c *Ctx) {
 			}
 		}
 	}
+	// chains of many distinct terms: reversed and rotated operand order (per-term tables with a fixed width)
+	for _, n := range []int{33, 65, 66, 130, 257} {
+		names := make([]string, n)
+		for i := range names {
+			names[i] = fmt.Sprintf("LicenseRef-c%d", i)
+		}
+		for _, op := range []string{" OR ", " AND "} {
+			fwd := strings.Join(names, op)
+			rev := make([]string, n)
+			for i := range names {
+				rev[n-1-i] = names[i]
+			}
+			rot := append(append([]string{}, names[n/2:]...), names[:n/2]...)
+			c.count("distinct_chain_orders")
+			for _, A := range [][]string{{names[0]}, {names[n-1]}, {names[n/2]}, names, names[1:], names[:n-1]} {
+				r1 := c.S(fwd, A)
+				for _, e2 := range []string{strings.Join(rev, op), strings.Join(rot, op), "(" + strings.Join(names[:n-1], op) + ")" + op + "(" + names[n-1] + ")"} {
+					if r2 := c.S(e2, A); r1 != unknown && r2 != unknown && r1 != r2 {
+						c.fail("Satisfies", map[string]interface{}{"expression": fwd, "expression_variant": e2, "allowed": A}, r1+" vs "+r2, "equal", "operand order / grouping of a chain of distinct terms")
+					}
+				}
+			}
+		}
+	}
 	// seeded deep trees: operand order and regrouping at nesting depth 3+, seeded assignments
 	nd := 1200
 	if c.thorough() {
@@ -1225,6 +1249,25 @@ func genC11(c *Ctx) {
 					if r := c.S(form, []string{y}); r != unknown && r != exp {
 						c.fail("Satisfies", map[string]interface{}{"expression": form, "allowed": []string{y}}, r, exp, "natural order of the version numbers of two listed ids of the same covered family ("+k+")")
 					}
+				}
+			}
+			// the '+' entry next to the bare entry of the same version, and the same id bare and with '+' in one expression
+			for _, y := range ids {
+				dx, dy := decompose(x), decompose(y)
+				if verCmp(dy, dx) <= 0 || c.V(x+"+") != "1" {
+					continue
+				}
+				// y is a later version than x
+				for _, A := range [][]string{{x, x + "+"}, {x + "+", x}, {x, x + "+", "MIT"}} {
+					if r := c.S(y, A); r != unknown && r != "T" {
+						c.fail("Satisfies", map[string]interface{}{"expression": y, "allowed": A}, r, "T", "the list holds "+x+"+ and "+y+" is a later version of the same family ("+k+")")
+					}
+				}
+				if r := c.S(x+" OR "+x+"+", []string{y}); r != unknown && r != "T" {
+					c.fail("Satisfies", map[string]interface{}{"expression": x + " OR " + x + "+", "allowed": []string{y}}, r, "T", x+"+ is matched by the later version "+y)
+				}
+				if r := c.S(x+"+ AND "+x, []string{y}); r != unknown && r != "F" {
+					c.fail("Satisfies", map[string]interface{}{"expression": x + "+ AND " + x, "allowed": []string{y}}, r, "F", "the bare "+x+" is not matched by the later version "+y)
 				}
 			}
 			// never across families
